@@ -14,6 +14,16 @@ fn logic_functions_hold_on_the_unchanged_tree() {
         assert_eq!(logic::c20_chain_ops(&a), Ok(()), "c20 {a:?}");
         let mut b = [0u8; 10]; for x in b.iter_mut() { *x = rng(&mut s); }
         assert_eq!(logic::c09_merge(&b), Ok(()), "c09 {b:?}");
+        let mut d = [0u8; 7]; for x in d.iter_mut() { *x = rng(&mut s); }
+        assert_eq!(logic::c09_sort2(&d), Ok(()), "c09_sort2 {d:?}");
+        let mut e = [0u8; 4]; for x in e.iter_mut() { *x = rng(&mut s); }
+        assert_eq!(logic::c09_three_sources(&e), Ok(()), "c09_three {e:?}");
+        let mut f = [0u8; 24]; for x in f.iter_mut() { *x = rng(&mut s); }
+        // bias the length field and flags towards parseable messages
+        f[14] = 0; f[15] = f[15] % 14; f[12] &= 0x3f;
+        assert_eq!(logic::c01_parse_storage(&f), Ok(()), "c01 {f:?}");
+        let mut g = [0u8; 12]; for x in g.iter_mut() { *x = rng(&mut s); }
+        assert_eq!(logic::c03_log_info(&g), Ok(()), "c03 {g:?}");
         let mut c = [0u8; 3]; for x in c.iter_mut() { *x = rng(&mut s); }
         assert_eq!(logic::c18_ser_str(&c), Ok(()), "c18 {c:?}");
     }
